@@ -9,11 +9,12 @@ open KadDHT KadDHT.Driver KadDHT.Mode
 def showSt (s : St) : String :=
   let m := if s.mode == .server then "server" else "client"
   let h := if s.handlers then "1" else "0"
-  let alive := C01.sortNats ((s.streams.filter (·.alive)).map fun st => st.id % 1000000) |>.map toString
+  let alive := C01.sortNats ((s.streams.filter (·.alive)).map fun st => st.id) |>.map toString
   s!"mode={m} handler={h} open=[{",".intercalate alive}]"
 
 def outStr : Out → String
   | .none => "-" | .nohandler => "nohandler" | .opened => "opened" | .answered => "answered" | .reset => "reset" | .dead => "dead"
+  | .delivered => "delivered" | .nothing => "nothing"
 
 def step (s : St) (line : String) : St × String :=
   if line.startsWith "#" then (init .auto, line) else
@@ -36,20 +37,11 @@ def step (s : St) (line : String) : St × String :=
     let (s', o) := Mode.step s (.openStream id.toNat! (dir == "in") (conn == "in"))
     (s', outStr o ++ " " ++ showSt s')
   | ["nego", id, conn] =>
-    -- an inbound stream between the end of its protocol negotiation and the moment the host records the protocol on it
-    -- and calls the handler it looked up: until then it is not a DHT stream for anybody (kept in the state as a
-    -- non-inbound stream under id + 1000000: a mode switch leaves it alone, a request on it goes nowhere)
-    if !s.handlers then (s, "nohandler " ++ showSt s) else
-    let s' := { s with streams := s.streams ++ [⟨id.toNat! + 1000000, false, conn == "in", true⟩] }
-    (s', "opened " ++ showSt s')
+    let (s', o) := Mode.step s (.negotiate id.toNat! (conn == "in"))
+    (s', outStr o ++ " " ++ showSt s')
   | ["deliver", id] =>
-    -- the handler starts: it checks the mode before it reads the first message (dht_net.go)
-    match s.streams.find? (·.id == id.toNat! + 1000000) with
-    | none => (s, "nothing " ++ showSt s)
-    | some st =>
-      let s' := { s with streams := s.streams.map fun x =>
-        if x.id == id.toNat! + 1000000 then { x with id := id.toNat!, inbound := true, alive := st.alive && s.mode == .server } else x }
-      (s', "delivered " ++ showSt s')
+    let (s', o) := Mode.step s (.deliver id.toNat!)
+    (s', outStr o ++ " " ++ showSt s')
   | ["req", id] =>
     let (s', o) := Mode.step s (.request id.toNat!)
     (s', outStr o ++ " " ++ showSt s')
